@@ -114,3 +114,14 @@ check('C16', 'other',
       "scatter and object-call groups; exp, log, r**0.75 uninterpreted with ground-instantiated laws; structures <= 5 chemicals, 2-3 groups in the symbolic part; NIST group "
       "assignments made in the contract. 3 defects repaired.",
       "symbolic execution of the real kernels' Python source with z3 discharge (frame/scatter/vertex clauses) + bounded run-time contracts on the compiled models", "DESIGN.md 4/C16")
+check('C05', 'proof',
+      "Contracts on the real Reaction / ParallelReaction / SeriesReaction / ReactionSystem functions (_reaction, _conversion, __call__, force_reaction, _rescale, "
+      "set_reaction_basis and copy(basis), as_material_array, Reaction.reset_chemicals, the string and dict parsers): the stoichiometric update (reactant consumed = X*feed, "
+      "others nu_k/|nu_r|; parallel extents from the feed, series and system from the running composition), conservation of mass and of every row of an abstract formula "
+      "matrix under the balanced-stoichiometry PRECONDITION, equality of mol- and wt-basis results on streams, non-negativity on normal return and 'InfeasibleRegion only if a "
+      "flow would be negative' are discharged by z3 on every feasible path for all real coefficients, conversions in [0,1] and feed flows >= 0; structure (3-4 chemicals, 1-4 "
+      "reactions, every reactant choice, phase-less and phase-tagged, Stream/MultiStream/sparse data/ndarray, same/reordered/superset package) enumerated from a finite family.",
+      "A-real; sparse kernels at contract level L0 (conditional on the C09 mode-U proofs). Balanced stoichiometry assumed with the database MW floats as one conservation row plus "
+      "an abstract 2-row F >= 0. Reactant coefficient free in C05/kernel (<= 2 reactions) and for single reactions, pinned to -1 (assumed leaf) elsewhere. Round-off cleaning is "
+      "part of the claim (flows in [-1e-12, 0) zeroed). correct_atomic_balance / correct_mass_balance (B bullet) not covered. 3 defects repaired.",
+      "deductive: sidecar contracts + VC generation by symbolic execution of the real functions on kernel contracts, z3 (QF_NRA) discharge, native replay", "DESIGN.md 4/C05")
